@@ -168,3 +168,29 @@ def pipeline(L, m, order):
         deinterleave(y)
         flip_msb(y)
     check(y == x, "decrypt(encrypt(x)) == x")
+
+
+def after_earlier_calls(L0, L, m):
+    """no memory: every primitive's result depends on its arguments only, not on earlier calls in the process"""
+    a = bytearray(sym_bytes("a", L0))
+    interleave(a)
+    deinterleave(a)
+    flip_msb(a)
+    swap_multiples(a, m)
+    m0 = sym_int("m0", 0, 255)
+    forked(swap_multiples, a, m0)
+    x = sym_bytes("x", L)
+    y = bytearray(x)
+    interleave(y)
+    z = bytearray(y)
+    deinterleave(z)
+    check(z == x, "after earlier calls: deinterleave(interleave(x)) == x")
+    f = bytearray(x)
+    flip_msb(f)
+    for i in range(L):
+        check(f[i] == (x[i] ^ 0x80 if (x[i] != 0 and x[i] != 0x80) else x[i]), "after earlier calls: flip_msb image")
+    s1 = bytearray(x)
+    swap_multiples(s1, m)
+    s2 = bytearray(s1)
+    swap_multiples(s2, m)
+    check(s2 == x, "after earlier calls: swap_multiples is an involution")
